@@ -542,8 +542,8 @@ pub fn def() -> PropDef {
         assumptions: &["for genuinely identical ingested rows any multiplicity between 1 and the ingested one is accepted", "DataFusion's evaluator is the trusted reference for the end-to-end part"],
         subs: || {
             vec![
-                Box::new(Sub::<RouteCase> { name: "routing", cases: |t| t.scale(1_500, 10), strategy: |_| route_case(2).boxed(), exec: exec_route }),
-                Box::new(Sub::<E2eCase> { name: "e2e", cases: |t| t.scale(500, 10), strategy: |_| (route_case(1), prop::collection::vec(0u8..6, 1..4)).prop_map(|(route, queries)| E2eCase { route, queries }).boxed(), exec: exec_e2e }),
+                Box::new(Sub::<RouteCase> { name: "routing", cases: |t| t.scale(5_000, 6), strategy: |_| route_case(2).boxed(), exec: exec_route }),
+                Box::new(Sub::<E2eCase> { name: "e2e", cases: |t| t.scale(2_000, 5), strategy: |_| (route_case(1), prop::collection::vec(0u8..6, 1..4)).prop_map(|(route, queries)| E2eCase { route, queries }).boxed(), exec: exec_e2e }),
             ]
         },
     }
